@@ -1,0 +1,22 @@
+//go:build verif
+
+// Contracts for the verification machinery in /verif (comment-only; no declarations).
+// C10/C12: the address filters between the peerstore and the dial worker only ever drop addresses
+// (every address they return is one they were given), so what the first filters established - a transport
+// exists, the gater allows the address - still holds for every address that is finally dialed.
+
+package swarm
+
+//@ func filterLowPriorityAddresses
+//@ prop C10 C12
+//@ ensures forall j int :: 0 <= j && j < len(result) ==> (exists k int :: 0 <= k && k < len(addrs) && result[j] == old(addrs[k]))
+//@ loop 1 invariant 0 <= i && i <= idx1
+//@ loop 1 invariant forall j int :: 0 <= j && j < len(addrs) ==> (exists k int :: 0 <= k && k < len(addrs) && addrs[j] == old(addrs)[k])
+//@ loop 1 invariant forall j int :: idx1 <= j && j < len(addrs) ==> addrs[j] == old(addrs)[j]
+//@ modifies elems(addrs)
+
+//@ func (d *blackHoleDetector) FilterAddrs
+//@ prop C10 C12
+//@ ensures forall j int :: 0 <= j && j < len(valid) ==> (exists k int :: 0 <= k && k < len(addrs) && valid[j] == addrs[k])
+//@ opaque getFilterState
+//@ modifies BlackHoleSuccessCounter.requests
